@@ -214,6 +214,29 @@ fn record(cell: &Cell, rep: &mut Report) {
         }
     }
     unreadable_copy_cases(cell, &run, rep);
+    // one directory registered twice on the read side, as a plain and as a sharded cache: two views, two levels
+    if cell.readers.len() >= 2 && aliasable(cell.readers[0], cell.readers[1]) && KEY_VARIANT.with(|k| k.get()) == 0 {
+        ALIASED_READERS.with(|a| a.set(true));
+        let r2 = run_cell(cell);
+        ALIASED_READERS.with(|a| a.set(false));
+        rep.evaluations += 1;
+        rep.states += 1;
+        rep.traces += 1;
+        rep.transitions += r2.trace.len() as u64;
+        rep.count("aliased_directory_cells", 1);
+        let mut seen = std::collections::BTreeSet::new();
+        for (sig, msg) in check(&r2) {
+            // (which level a path belongs to cannot be told from the path when two levels share a directory)
+            if sig == "later-level-consulted" {
+                continue;
+            }
+            if seen.insert(sig.clone()) {
+                let mut case = cell.to_json();
+                case["aliased_readers"] = serde_json::json!(true);
+                rep.violation(format!("checker:{}", sig), format!("{} [the first two read-only levels are views of one directory]: {}", cell.to_json(), msg), case);
+            }
+        }
+    }
     // a copy that sits in its level's secondary shard, again with keys whose two hash images coincide (the secondary
     // shard then comes from the distinctness fix-up, wrapping around for the last shard)
     if cell.contents.iter().any(|&c| c >= 3) && KEY_VARIANT.with(|k| k.get()) == 0 {
@@ -316,7 +339,7 @@ pub fn run(_tier: Tier, shard: Shard, rep: &mut Report) {
         appears in the checker's invocation log, errors/panics reach the caller, no checker => later levels not opened and populate \
         not called on an accepted hit; for every successful checker cell, each redundant copy in a read-only level is made \
         unreadable in turn (its open fails with EACCES / EIO): the lookup must then not succeed; copies of very different sizes (first copy empty or cut at 1, 4096, 65536, 131072 \
-        bytes of a 131077-byte value, and the reverse) through the library's own checkers; cells with a copy in a secondary shard again with keys whose two hash images coincide (first shard, and last shard with the fix-up wrapping). Non-trivial = checker configured and >= 2 copies present."
+        bytes of a 131077-byte value, and the reverse) through the library's own checkers; cells whose first two read-only levels differ in kind again with both naming one and the same directory (a plain and a sharded view of it); cells with a copy in a secondary shard again with keys whose two hash images coincide (first shard, and last shard with the fix-up wrapping). Non-trivial = checker configured and >= 2 copies present."
         .into();
     rep.assumptions = vec!["checker invocations are identified by the (dev, inode) of both file arguments".into()];
     let all = cells();
